@@ -12,7 +12,7 @@ import time
 VERIF = os.path.dirname(os.path.dirname(os.path.abspath(__file__)))
 REPO = os.environ.get("VERIF_REPO", "/repo")
 SPEC = os.path.join(VERIF, "spec")
-WORKROOT = os.path.join(VERIF, ".work")
+WORKROOT = os.environ.get("VERIF_WORK") or os.path.join(VERIF, ".work")
 TLA_CP = "/opt/veriftools/tla/tla2tools.jar:/opt/veriftools/tla/CommunityModules-deps.jar"
 NCPU = os.cpu_count() or 4
 
